@@ -254,6 +254,8 @@ impl SolutionState {
 
     /// Sets the value to solution state using the key type provided.
     pub fn set_value<K: 'static, V: 'static + Sync + Send>(&mut self, value: V) {
+        #[cfg(reinterpretcat_vrp_verif)]
+        crate::verif::note_state_type::<K, V>();
         self.index.insert(TypeId::of::<K>(), Arc::new(value));
     }
 }
@@ -367,6 +369,8 @@ impl RouteState {
 
     /// Sets the value associated with the tour using `K` type as a key.
     pub fn set_tour_state<K: 'static, V: Send + Sync + 'static>(&mut self, value: V) {
+        #[cfg(reinterpretcat_vrp_verif)]
+        crate::verif::note_state_type::<K, V>();
         self.index.insert(TypeId::of::<K>(), Arc::new(value));
     }
 
@@ -391,6 +395,8 @@ impl RouteState {
 
     /// Adds values associated with activities.
     pub fn set_activity_states<K: 'static, V: Send + Sync + 'static>(&mut self, values: Vec<V>) {
+        #[cfg(reinterpretcat_vrp_verif)]
+        crate::verif::note_state_type::<K, Vec<V>>();
         self.index.insert(TypeId::of::<K>(), Arc::new(values));
     }
 
